@@ -891,5 +891,43 @@ def replay(path):
             return 1
         log("replay: the recorded violation does not reproduce on the current tree")
         return 0
+    if obj.get("kind") == "p2":
+        # one recorded program: replay it on the current tree and let Trace_SF judge it again
+        run = Run("replay", "quick", "model_checking"); run.prop = obj["property"]; run.known = []
+        inp = os.path.join(wd, "prog.in.ndjson"); outp = os.path.join(wd, "prog.out.ndjson")
+        json.dump({"id": 1, "unit": obj.get("unit", 1), "slots": obj["slots"], "prog": obj["prog"]}, open(inp, "w"))
+        sfv.harness("run", inp, outp, obj.get("profile", "dev"))
+        r = json.loads(open(outp).readline())
+        for op, res in zip(r["prog"], r["res"]):
+            log("   %-40s -> %s" % (json.dumps(op)[:40], sfv.obs_to_float(res) if isinstance(res, list) else res))
+        res = sfv.run_tlc("Trace_SF", "Trace.cfg", {"TRACE": outp, "PROP": obj.get("prop", obj["property"])}, wd, workers=1, timeout=600, dfs=True)
+        if res["viol"]:
+            log("VIOLATION property=%s replay=%s" % (obj["property"], path)); return 1
+        log("replay: the recorded violation does not reproduce on the current tree"); return 0
+    if obj.get("kind") == "p3":
+        run = Run("replay", "quick", "exploration"); run.prop = obj["property"]; run.known = []
+        st = dict(obj["stream"]); st["xs"] = obj["xs"]; st["k"] = 1
+        sfv.p3_stream_job(run, "replay", obj.get("prop", obj["property"]), [st], profile=obj.get("profile", "dev"))
+        for v in run.violations[:3]:
+            log("   still violated: %s" % json.dumps(v["detail"])[:300])
+        if run.violations:
+            log("VIOLATION property=%s replay=%s" % (obj["property"], path)); return 1
+        log("replay: the recorded violation does not reproduce on the current tree"); return 0
+    if obj.get("kind") == "pairs":
+        run = Run("replay", "quick", "model_checking"); run.prop = obj["property"]; run.known = []
+        sc = dict(obj["scope"]); sc["cfgs"] = [obj["cfg"]]; sc["maxlen"] = len(obj["x"])
+        sfv.pair_job(run, "replay", sc)
+        hit = [v for v in run.violations if v["detail"]["x"] == obj["x"] and v["detail"]["y"] == obj["y"]]
+        if hit:
+            log("VIOLATION property=%s replay=%s" % (obj["property"], path)); return 1
+        log("replay: the recorded violation does not reproduce on the current tree"); return 0
+    if obj.get("kind") == "exp":
+        e = obj["experiment"]
+        log("experiment: %s" % json.dumps(e)[:400])
+        log("re-run the property's check (./check %s) to re-record and re-judge this experiment; streams are regenerated from VERIF_SEED" % obj["property"])
+        return CHECKS[obj["property"]](os.environ.get("VERIF_TIER", "quick"))
+    if obj.get("kind") == "formula":
+        log("model-level finding on the specification's coefficient formula: %s at N=%s; re-run ./check C09" % (obj.get("view"), obj.get("N")))
+        return CHECKS["C09"](os.environ.get("VERIF_TIER", "quick"))
     log("unknown replay kind")
     return 2
